@@ -302,6 +302,55 @@ var misuses = []misuse{
 	{"noparam", "apply", "deriveApplyX(func() int { return 0 }, 1)"},
 }
 
+// splitMisuse separates the package level declarations a misuse needs (before "\x00") from its call.
+func splitMisuse(call string) (decl, c string) {
+	if i := strings.Index(call, "\x00"); i >= 0 {
+		return call[:i] + "\n\n", call[i+1:]
+	}
+	return "", call
+}
+
+const namedFuncDecls = "type FnE func() (int, error)\n\ntype FnIE func(int) (int, error)\n\ntype Fn2 func(a int, b string) bool\n\n" +
+	"type FnC func(int) func(string) bool\n\ntype Fn1 func(int) int\n\ntype FnB func(int) (string, bool)\n\ntype FnSE func(int) (string, error)\n\n" +
+	"type FnR func(rune) int\n\ntype Pred func(int) bool\n\ntype St1 func(int) <-chan string\n\ntype St2 func(string) <-chan int\n\ntype FnJ func() (func() (int, error), error)\x00"
+
+func init() {
+	// a value of a defined function type where a function is expected: every plugin either takes it (and
+	// then has to generate for it) or reports it
+	for _, m := range []misuse{
+		{"named-func", "do", "deriveDoX(FnE(nil), FnE(nil))"},
+		{"named-func", "do", "deriveDoX(func() (string, error) { return \"\", nil }, FnE(nil))"},
+		{"named-func", "compose", "deriveComposeX(FnE(nil), FnIE(nil))"},
+		{"named-func", "compose", "deriveComposeX(func() (int, error) { return 0, nil }, FnIE(nil))"},
+		{"named-func", "curry", "deriveCurryX(Fn2(nil))"},
+		{"named-func", "flip", "deriveFlipX(Fn2(nil))"},
+		{"named-func", "apply", "deriveApplyX(Fn2(nil), \"s\")"},
+		{"named-func", "uncurry", "deriveUncurryX(FnC(nil))"},
+		{"named-func", "mem", "deriveMemX(Fn1(nil))"},
+		{"named-func", "toerror", "deriveToErrorX(error(nil), FnB(nil))"},
+		{"named-func", "traverse", "deriveTraverseX(FnSE(nil), []int{})"},
+		{"named-func", "fmap", "deriveFmapX(Fn1(nil), []int{})"},
+		{"named-func", "fmap", "deriveFmapX(FnR(nil), \"abc\")"},
+		{"named-func", "fmap", "deriveFmapX(Fn1(nil), make(chan int))"},
+		{"named-func", "fmap", "deriveFmapX(Fn1(nil), FnE(nil))"},
+		{"named-func", "fmap", "deriveFmapX(Fn1(nil), func() (int, error) { return 0, nil })"},
+		{"named-func", "filter", "deriveFilterX(Pred(nil), []int{})"},
+		{"named-func", "all", "deriveAllX(Pred(nil), []int{})"},
+		{"named-func", "any", "deriveAnyX(Pred(nil), []int{})"},
+		{"named-func", "takewhile", "deriveTakeWhileX(Pred(nil), []int{})"},
+		{"named-func", "pipeline", "derivePipelineX(St1(nil), St2(nil))"},
+		{"named-func", "pipeline", "derivePipelineX(func(int) <-chan string { return nil }, St2(nil))"},
+		{"named-func", "join", "deriveJoinX(FnJ(nil))"},
+		{"named-func", "tuple", "deriveTupleX(Fn1(nil), 1)"},
+		{"named-func", "equal", "deriveEqualX(Fn1(nil), Fn1(nil))"},
+		{"named-func", "hash", "deriveHashX(Pred(nil))"},
+		{"named-func", "dup", "deriveDupX(make(chan Fn1))"},
+	} {
+		m.call = namedFuncDecls + m.call
+		misuses = append(misuses, m)
+	}
+}
+
 var brokenUser = []struct{ name, src string }{
 	{"syntax-error", "package p\n\nfunc u() { deriveEqualX(1, 2 }\n"},
 	{"syntax-error-other-file", "package p\n\nfunc broken( {\n"},
@@ -370,9 +419,10 @@ func drawFault(t *rapid.T, n int) *faultCase {
 		fc.desc = call
 	case 6, 7, 8:
 		m := misuses[rapid.IntRange(0, len(misuses)-1).Draw(t, "misuse")]
-		p.Add("func u() {\n\t%s\n}\n", m.call)
+		mdecl, mcall := splitMisuse(m.call)
+		p.Add("%sfunc u() {\n\t%s\n}\n", mdecl, mcall)
 		fc.plugin, fc.fault, fc.position = m.plugin, m.name, "call"
-		fc.desc = m.call
+		fc.desc = mcall
 	default:
 		b := brokenUser[rapid.IntRange(0, len(brokenUser)-1).Draw(t, "broken")]
 		p.Add("func ok(a, b []int) bool {\n\treturn deriveEqualOK(a, b)\n}\n")
@@ -560,8 +610,9 @@ func sweep(c *pkit.Ctx) {
 	}
 	for _, m := range misuses {
 		p, _ := base()
-		p.Add("func u() {\n\t%s\n}\n", m.call)
-		run(&faultCase{plugin: m.plugin, fault: m.name, position: "call", desc: m.call}, p.Files())
+		mdecl, mcall := splitMisuse(m.call)
+		p.Add("%sfunc u() {\n\t%s\n}\n", mdecl, mcall)
+		run(&faultCase{plugin: m.plugin, fault: m.name, position: "call", desc: mcall}, p.Files())
 	}
 	for _, b := range brokenUser {
 		p, _ := base()
